@@ -20,5 +20,5 @@ INIT Init
 NEXT Next
 VIEW view
 INVARIANTS TypeOK StoredChainValid StateIsChain DbConsistent
-PROPERTIES AcceptedOnlyIfValid RejectedUnchanged TamperRejected ValidAccepted PendingStoredIffContinues
+PROPERTIES AcceptedOnlyIfValid RejectedUnchanged TamperRejected ValidAccepted PendingStoredIffContinues RestartIsNoOp
 CHECK_DEADLOCK FALSE
